@@ -22,6 +22,10 @@ import (
 
 var objStates = []string{"controlled", "co-owned", "foreign", "absent"}
 
+// extraStates: shapes that take a different path through the teardown code; used in dedicated
+// scenarios (controlled, but without the cache label and held by a foreign finalizer).
+var extraStates = []string{"controlled-unlabelled-held"}
+
 // Scenario is one closed teardown system.
 type Scenario struct {
 	States []string `json:"states"` // per object o1..on
@@ -130,6 +134,10 @@ func (s *sys) create(i int, st string) {
 	o.SetLabels(map[string]string{"package-operator.run/cache": "True"})
 	var ents []map[string]any
 	switch st {
+	case "controlled-unlabelled-held":
+		ents = []map[string]any{entry(s.self, true)}
+		o.SetLabels(nil)
+		o.SetFinalizers([]string{"example.com/hold"})
 	case "controlled":
 		ents = []map[string]any{entry(s.self, true)}
 	case "co-owned":
@@ -365,6 +373,13 @@ func scenarios(quick bool) []Scenario {
 		}
 	}
 	rec(nil)
+	// unusual shapes of a controlled object
+	for _, st := range extraStates {
+		for _, anno := range []bool{false, true} {
+			out = append(out, Scenario{States: []string{st, "controlled"}, Target: 0, Anno: anno, Events: 2})
+			out = append(out, Scenario{States: []string{"foreign", st}, Target: 1, Anno: anno, Events: 1})
+		}
+	}
 	// orphan deletion
 	for _, anno := range []bool{false, true} {
 		out = append(out, Scenario{States: []string{"controlled", "co-owned"}, Target: 0, Anno: anno, Orphan: true, Events: 1})
@@ -389,7 +404,7 @@ func run(o checks.Opts) *report.Report {
 	rep.Bounds["preemptions"] = bound
 	scs := scenarios(o.Quick())
 	rep.Bounds["scenarios"] = len(scs)
-	rep.Rule = "for every initial ownership state of the phase's objects (controlled / co-owned / foreign / absent per object), target object, owner strategy (native ObjectSet, annotation ObjectSetPhase) and orphan deletion: every interleaving, with <= 2 preemptions at API-call granularity, of one real teardown pass with up to two third-party actions (re-own to another controller, delete+re-create unowned / owned by another, modify spec, strip owners); monitors on every request of the pass; distinct = (survivors, pass error)"
+	rep.Rule = "for every initial ownership state of the phase's objects (controlled / co-owned / foreign / absent per object, plus controlled without the cache label and held by a foreign finalizer), target object, owner strategy (native ObjectSet, annotation ObjectSetPhase) and orphan deletion: every interleaving, with <= 2 preemptions at API-call granularity, of one real teardown pass with up to two third-party actions (re-own to another controller, delete+re-create unowned / owned by another, modify spec, strip owners); monitors on every request of the pass; distinct = (survivors, pass error)"
 	for i, sc := range scs {
 		if o.Shards > 1 && i%o.Shards != o.Shard {
 			continue
